@@ -199,3 +199,10 @@ def run(ctx, facts):
     lower_rules(ctx, facts)
     C04._smh(ctx, facts)
     C04._setsketch(ctx, facts)
+    # the join semantics of SuperMinHash needs every item to start from the identity permutation: item_rank must advance
+    # once per item whichever entry point feeds it, and the slice entry points must be pure delegations
+    ctx.rule("COUNTER", C04.RULES["COUNTER"])
+    ctx.rule("DELEG", C04.RULES["DELEG"])
+    C04._counter(ctx, facts)
+    C04.deleg_slice(ctx, facts, C04.SMH + "sketch_slice")
+    C04.deleg_slice(ctx, facts, C04.SS + "sketch_slice")
